@@ -429,6 +429,10 @@ Proof. vm_compute. reflexivity. Qed.
 Example refuted_merge_again :
   match after [MergeH 0 0 1; MergeV 0 1 1] t33 with Some t => grid_inv t = false | None => False end.
 Proof. vm_compute. reflexivity. Qed.
+Example refuted_unmerge_after_hmerge :
+  match after [MergeV 0 2 2; MergeH 0 0 1] t33, after [MergeV 0 2 2; MergeH 0 0 1; Unmerge 0 1] t33 with
+  | Some a, Some b => grid_inv a = true /\ grid_inv b = false | _, _ => False end.
+Proof. vm_compute. split; reflexivity. Qed.
 (* and the merges the partial theorems cover do keep the table well-formed *)
 Example merges_on_plain_ok :
   match after [MergeH 0 0 1; SetCellText 0 0 7%N; Unmerge 0 0] t33, after [MergeV 0 2 1; Unmerge 0 1] t33, after [MergeRange 0 1 1 2] t33 with
